@@ -242,6 +242,11 @@ func c09Tree(ctx *core.Ctx, t *qt.Node, r *rand.Rand) {
 					ctx.Distinct("operand_contexts", fmt.Sprintf("%s>%s", x.Kind, k.Kind))
 				}
 			}
+			if (x.Kind == qt.KFuzzy || x.Kind == qt.KBoost) && x.HasArg {
+				// the amount is the right operand of the explicitly written ~ / ^
+				v := qt.Print(t, qt.Style{WrapArg: map[*qt.Node]int{x: 1 + r.Intn(2)}})
+				ctx.Case(v, func() { c09Same(ctx, "parens-amount", base, v, false) })
+			}
 			if x.Kind == qt.KField || x.Kind == qt.KCmp {
 				v := qt.Print(t, qt.Style{WrapValue: map[*qt.Node]int{x: 1}})
 				ctx.Case(v, func() { c09Same(ctx, "parens-value", base, v, false) })
@@ -261,7 +266,7 @@ func (c09) Finish(res *core.Result, cov map[string]any) []string {
 	cov["distinct_nontrivial"] = res.NDistinct("nontrivial")
 	cov["exhaustive"] = true
 	cov["rule"] = "token sequences up to length L (exhaustive) with every separator re-filled by space/tab/CR/LF runs, leading/trailing runs, separators removed next to symbol tokens, and every lower-case subset of their keywords (both directions of the iff); every depth<=2 tree (exhaustive over the leaf alphabet), with and without juxtapositions, under every single redundant-parenthesis placement the statement names (whole query, operand of an explicit operator, field value). Non-trivial = distinct (base, variant) pair whose base parses."
-	for _, k := range []string{"variants_whitespace", "variants_whitespace-removed", "variants_keyword-case", "variants_parens-whole", "variants_parens-operand", "variants_parens-value"} {
+	for _, k := range []string{"variants_whitespace", "variants_whitespace-removed", "variants_keyword-case", "variants_parens-whole", "variants_parens-operand", "variants_parens-value", "variants_parens-amount"} {
 		floor(res.Counters[k] >= 500, &reasons, "%s = %d", k, res.Counters[k])
 	}
 	floor(res.Counters["accept_accept"] >= 1000 && res.Counters["reject_reject"] >= 1000, &reasons, "accept/accept %d reject/reject %d", res.Counters["accept_accept"], res.Counters["reject_reject"])
